@@ -72,6 +72,65 @@ theorem C06.others_undisturbed (s : St) (hs : Inv s) (id : Nat) (rk : RKind) (w 
     w ∈ (step s (.resp id rk)).1.waiting ∧ alGet w.id (step s (.resp id rk)).1.pending = some w.caller := by
   exact others_undisturbed_aux s hs.registered hs.oneEach id rk w hw hne
 
+/-- EVERY WAITER IS SERVED: in every well-formed state (hence every reachable one), however many requests are in flight, the
+    response of the expected kind bearing a blocked caller's id is delivered to exactly that caller — no outstanding request
+    can be starved or shadowed by the others -/
+theorem C06.every_waiter_served (s : St) (hs : Inv s) (w : Waiter) (hw : w ∈ s.waiting) :
+    (step s (.resp w.id (expected w.kind))).2 = .delivered w.caller (expected w.kind) := by
+  have hreg := hs.registered w hw
+  have hfind : ∀ (l : List Waiter), w ∈ l → (l.map (·.caller)).Nodup →
+      l.find? (fun x => decide (x.caller = w.caller ∧ x.id = w.id)) = some w := by
+    intro l
+    induction l with
+    | nil => intro h _; cases h
+    | cons a l ih =>
+      intro hw hnd
+      simp only [List.map_cons, List.nodup_cons, List.mem_map, not_exists, not_and] at hnd
+      rcases List.mem_cons.1 hw with heq | hw'
+      · subst heq; simp
+      · have hne : a.caller ≠ w.caller := fun h => hnd.1 w hw' h.symm
+        rw [List.find?_cons_of_neg (by simp [hne])]
+        exact ih hw' hnd.2
+  have hf := hfind s.waiting hw hs.oneEach
+  simp only [step, hreg, hf, if_true]
+
+/-- … and so a burst of answers serves every outstanding caller, in whatever order the broker sends them: answering the
+    waiters of a well-formed state one after the other (any enumeration without repetition) delivers each response to its own
+    caller -/
+theorem burst_served_aux : ∀ (ws : List Waiter) (s : St), SInv s → (∀ w ∈ ws, w ∈ s.waiting) → (ws.map (·.id)).Nodup →
+    (run s (ws.map fun w => Ev.resp w.id (expected w.kind))).2 = ws.map fun w => Out.delivered w.caller (expected w.kind) := by
+  intro ws
+  induction ws with
+  | nil => intro s _ _ _; rfl
+  | cons w ws ih =>
+    intro s hs hmem hnd
+    simp only [List.map_cons, List.nodup_cons, List.mem_map, not_exists, not_and] at hnd
+    have hw := hmem w (List.mem_cons_self ..)
+    have hsI : Inv s := ⟨hs.registered, hs.oneEach, hs.idsDistinct⟩
+    have h1 := C06.every_waiter_served s hsI w hw
+    have hrest : ∀ x ∈ ws, x ∈ (step s (.resp w.id (expected w.kind))).1.waiting ∧
+        alGet x.id (step s (.resp w.id (expected w.kind))).1.pending = some x.caller := by
+      intro x hx
+      exact others_undisturbed_aux s hs.registered hs.oneEach w.id _ x (hmem x (List.mem_cons_of_mem _ hx)) (fun h => hnd.1 x hx h)
+    have hs' : SInv (step s (.resp w.id (expected w.kind))).1 := sinv_resp s hs w.id _
+    have := ih _ hs' (fun x hx => (hrest x hx).1) hnd.2
+    simp only [List.map_cons, run]
+    rw [show (step s (Ev.resp w.id (expected w.kind))) = ((step s (Ev.resp w.id (expected w.kind))).1, (step s (Ev.resp w.id (expected w.kind))).2) from rfl]
+    simp only [h1, this]
+
+/-- … stated for reachable states: after any history of fewer than 2^31 - 1 requests, answering any set of outstanding
+    requests back to back, in any order, serves each of them -/
+theorem C06.burst_served (evs : List Ev) (h : numReqs evs < 2147483647) (ws : List Waiter)
+    (hmem : ∀ w ∈ ws, w ∈ (run {} evs).1.waiting) (hnd : (ws.map (·.id)).Nodup) :
+    (run (run {} evs).1 (ws.map fun w => Ev.resp w.id (expected w.kind))).2 = ws.map fun w => Out.delivered w.caller (expected w.kind) := by
+  rw [numReqs_eq_nreq] at h
+  have := sinv_run evs {} sinv_init (by show 2 + 2 * nreq evs < 4294967296; omega)
+  exact burst_served_aux ws _ this hmem hnd
+
+example : let s := (run {} [.req 1 .upOpen, .req 2 .metadata, .req 3 .downClose]).1
+    (run s [.resp 6 .downCloseR, .resp 2 .upOpenR, .resp 4 .metaAck]).2 =
+      [.delivered 3 .downCloseR, .delivered 1 .upOpenR, .delivered 2 .metaAck] := by decide
+
 /-- unknown or already-answered ids are ignored without any state change -/
 theorem C06.unknown_ignored (s : St) (id : Nat) (rk : RKind) (h : alGet id s.pending = none) :
     step s (.resp id rk) = (s, .ignored) := by
